@@ -958,3 +958,55 @@ def gen_heap_prog(rng):
     p = {'tempos': [], 'bodies': bodies, 'main': [a for a in main if a[0] != 'Y'], 'tail': rng.choice(['0', '1/4'])}
     p['ints'] = rng.random() < 0.3
     return p
+
+
+# ------------------------------------------------------------------ round 4 (C07): the score closed from INSIDE a routine
+def gen_close_prog(rng):
+    """NRT: the routine that runs last (a 'conductor' on SystemClock, AppClock or a TempoClock) closes the score itself, at its
+    logical time T > 0, with score.finish(tail) or main.process(tail); helpers and the code outside routines have sent bundles that
+    may reach beyond T + tail.  Model: KScore.nrt_run_closed_inside."""
+    t0 = rng.choice(['1', '2', '1/2', '4'])
+    cc = rng.choice(['S', 'A', ['T', 0]])
+    tc = Fraction(t0) if cc == ['T', 0] else Fraction(1)
+    lats = [None, '0', '1/4', '1', '2', '4', '-1/4']
+    helpers = []
+    for h in range(rng.randint(0, 2)):
+        b = []
+        for _ in range(rng.randint(1, 3)):
+            b += [['S', rng.choice(lats), 10 * h + len(b)], ['Y', rng.choice(['1/8', '1/4'])]]
+        helpers.append(b)
+    cond = []
+    for _ in range(rng.randint(1, 3)):
+        cond += [['S', rng.choice(lats), 50 + len(cond)], ['Y', str(Fraction(rng.choice(['1', '3/2', '2'])) * tc)]]
+    for _ in range(rng.randint(0, 2)):
+        cond.append(['S', rng.choice(lats), 70 + len(cond)])
+    bodies = helpers + [cond]
+    main = [['P', len(bodies) - 1, cc]] + [['P', j, 'S'] for j in range(len(helpers))]
+    for _ in range(rng.randint(0, 2)):
+        main.insert(rng.randint(0, len(main)), ['S', rng.choice(['0', '1', '3', '6', None]), 90 + len(main)])
+    return {'tempos': [t0], 'bodies': bodies, 'main': main, 'tail': '0', 'ints': rng.random() < 0.3,
+            'close': {'body': len(bodies) - 1, 'tail': rng.choice(['0', '1/4', '1/2', '4', '-1/4', '-0', '1/8', '1']),
+                      'how': rng.choice(['finish', 'process'])}}
+
+
+CLOSE_HEADER = HEADER_NRT.replace('SC3.model.KCmp.', 'SC3.model.KCmp SC3.model.KScore.') + """
+Definition closed_agrees (p : prog) (fuel : nat) (tail : Q) (o : nrt_obs) : bool :=
+  let st := nrt_loop repaired p fuel (nrt_main repaired p) in
+  nrt_completed repaired p fuel && list_eqb event_eqb (rev (n_log st)) (no_events o)
+  && score_eqb (n_score (nrt_run_closed_inside repaired p fuel tail)) (no_score o) && Qeq_bool (n_mtime st) (no_elapsed o).
+"""
+
+
+def close_monitor(p, o):
+    """the marker of a score closed from a routine at logical time T: last entry, at max(T + tail, last bundle, T)"""
+    F = Fraction
+    sc = o['score']
+    T = F(o['elapsed'])
+    tail = F(p['close']['tail'])
+    others = [F(s[2]) for s in sc if s[4] != [['m', -1]]]
+    marks = [F(s[2]) for s in sc if s[4] == [['m', -1]]]
+    exp = max(T + tail, max(others), T)
+    if not marks or sc[-1][4] != [['m', -1]] or marks[-1] != exp:
+        return ('score closed from inside a routine at logical time %s with tailtime %s (last bundle at %s): the marker is %s, expected the last '
+                'entry at %s' % (T, p['close']['tail'], max(others), [str(m) for m in marks] or 'missing', exp))
+    return None
